@@ -50,6 +50,26 @@ bitflags! {
     }
 }
 
+/// Verification hook H4: `xgetbv` does not trap in ring 3, so the emulated XCR0 content is
+/// supplied here. Default: disabled, the real instruction is executed.
+#[cfg(feature = "verif_hooks")]
+#[doc(hidden)]
+pub mod verif_hooks {
+    use core::sync::atomic::{AtomicBool, AtomicU64, Ordering};
+    /// Whether the emulated value is used instead of `xgetbv`.
+    pub static ENABLED: AtomicBool = AtomicBool::new(false);
+    /// The emulated XCR0 value.
+    pub static VALUE: AtomicU64 = AtomicU64::new(0);
+    #[inline]
+    pub(super) fn get() -> Option<u64> {
+        if ENABLED.load(Ordering::Relaxed) {
+            Some(VALUE.load(Ordering::Relaxed))
+        } else {
+            None
+        }
+    }
+}
+
 #[cfg(all(feature = "instructions", target_arch = "x86_64"))]
 mod x86_64 {
     use super::*;
@@ -65,6 +85,10 @@ mod x86_64 {
         /// Read the current raw XCR0 value.
         #[inline]
         pub fn read_raw() -> u64 {
+            #[cfg(feature = "verif_hooks")]
+            if let Some(v) = verif_hooks::get() {
+                return v;
+            }
             unsafe {
                 let (low, high): (u32, u32);
                 asm!(
